@@ -18,7 +18,13 @@ RULE = (
     "byte-identical to its SHA-256 snapshot (buffers we own are also read-only, so a write raises); each vjp(g) equals bitwise "
     "the result of a freshly built VJP called once with the same g; vjp(a g) == a vjp(g) to 1e-12. Non-trivial = the program has "
     "fan-out >= 2 with a pass-through rule or mixes sparse and dense contributions (or is a container program), and the history "
-    "contains >= 2 calls of the same function; distinct by (program, history)."
+    "contains >= 2 calls of the same function; distinct by (program, history). special_points: the same memory invariants (inputs, "
+    "captured partner operands, the primal result handed out by make_vjp / make_jvp, results returned earlier, repeatability, value == "
+    "NumPy's before and after) at the points where rules branch on values: ties of max/min/maximum/..., abs at 0, clip at a bound, "
+    "x**y at x = 0 for either argument, and 30 functions analytic at exact-zero entries. large_arrays: histories of 3-5 gradients of 13 "
+    "programs (real FFTs, reductions, cumsum, indexing, dot) over vectors of 2**16..2**17 entries - sizes at which an implementation "
+    "may switch strategy (kept buffers, chunking): inputs unchanged, <grad, v> against central differences of raw NumPy (1e-5 relative), "
+    "a repeated step reproduces its first result bitwise whatever ran in between."
 )
 
 
@@ -336,13 +342,213 @@ def template_body(tdef, c):
               labels=["template_history"], sample=sample)
 
 
+def _closure_arrays(f, depth=0):
+    """ndarrays captured by a function's closure (the partner operands and constants of a drawn configuration)."""
+    out = []
+    for cell in getattr(f, "__closure__", None) or ():
+        try:
+            v = cell.cell_contents
+        except ValueError:
+            continue
+        if isinstance(v, onp.ndarray):
+            out.append(v)
+        elif callable(v) and depth < 2:
+            out += _closure_arrays(v, depth + 1)
+    return out
+
+
+def special_points_body(c):
+    """Memory discipline at the SPECIAL points of the rules: ties, exact zeros, clip bounds, x**y at x = 0 (both arguments), and
+    functions analytic at exact-zero entries.  Several rules branch on the values there (replace_zero, balanced_eq, chooser
+    masks); the branch must not write into the operands, the captured partners, the primal result it was handed, or its cotangent."""
+    import autograd
+
+    from ..templates.core import namespaces
+    from . import kinks
+    from .c07 import zero_families
+
+    NP, AG = namespaces()
+    kind = c.int(0, 3)
+    if kind <= 1:
+        name, f, x0, _, desc = kinks.build(c)
+    elif kind == 2:
+        fams = zero_families()
+        names = sorted(fams)
+        name = names[c.int(0, len(names) - 1)]
+        f = fams[name]
+        shape = c.choice([(3,), (2, 3), (3, 2)])
+        x0 = values.generic(c.seed(), [shape], -1.5, 1.5)[0][0].copy()
+        rows = x0.reshape(-1, x0.shape[-1])
+        for r in rows:  # zero out a drawn subset of each row, always keeping one entry (an all-zero row is a kink of the norms)
+            keep = c.int(0, len(r) - 1)
+            for j in range(len(r)):
+                if j != keep and c.bool():
+                    r[j] = 0.0
+        if rows.all():
+            rows[0][(c.int(1, len(rows[0]) - 1))] = 0.0
+        desc = ["zero_entries", name, list(shape)]
+    else:
+        # the exponent is differentiated, the (captured or co-traced) base has exact zeros
+        shape = c.choice([(3,), (2, 3), ()])
+        base = onp.array(values.generic(c.seed(), [shape], 0.4, 2.0)[0][0])
+        flat = base.reshape(-1)
+        for _ in range(c.int(1, 2)):
+            flat[c.int(0, flat.size - 1)] = 0.0
+        x0 = onp.array(values.generic(c.seed(), [shape], 0.6, 2.5)[0][0])
+        form = c.int(0, 2)
+        f = [lambda ns, y: ns.power(base, y), lambda ns, y: base ** y, lambda ns, y: ns.power(base * 1.0, y) * ns.abs(base)][form]
+        name, desc = "power_exponent", ["pow_zero_base", list(shape), form]
+    x0 = onp.array(x0)
+    captured = _closure_arrays(f)
+    watched = [x0] + captured
+    for a in watched:
+        a.flags.writeable = False
+    sample = {"config": desc, "x": x0.tolist()}
+    bucket = lambda k: f"C10|special|{desc[0]}|{name}|{k}"
+    c.features.update(kind=desc[0], fn=name)
+    try:
+        ref = onp.array(f(NP, x0))
+    except Exception as e:
+        return Outcome("numpy_rejects", detail=str(e)[:100], sample=sample)
+    if ref.dtype.kind not in "fc":
+        return Outcome("numpy_rejects", detail="non-float output", sample=sample)
+    before = digest(watched)
+    g1 = onp.array(values.direction(c.seed(), ref.shape, 71))
+    v1 = onp.array(values.direction(c.seed(), x0.shape, 72))
+    g1.flags.writeable = False
+    v1.flags.writeable = False
+    fa = lambda x: f(AG, x)
+    try:
+        vjp, y = autograd.make_vjp(fa)(x0)
+        y_digest = digest([y])
+        r1 = vjp(g1)
+        r1_digest = digest([r1])
+        r1_again = vjp(g1)
+        y_jvp, t1 = autograd.make_jvp(fa)(x0)(v1)
+        t1_digest = digest([y_jvp, t1])
+        y_jvp2, t2 = autograd.make_jvp(fa)(x0)(v1)
+        fresh = autograd.make_vjp(fa)(x0)[0](g1)
+        plain = onp.array(fa(x0))
+    except ValueError as e:
+        if "read-only" in str(e) or "not writeable" in str(e):
+            return fail("foreign_write", "a rule tried to write into memory it was given: " + describe_exc(e), bucket("foreign_write"), sample=sample)
+        return raised(e, "special", sample=sample)
+    except Exception as e:
+        if not from_autograd(e):
+            raise
+        return raised(e, "special", sample=sample)
+    if digest(watched) != before or digest([g1, v1]) != digest([onp.array(g1), onp.array(v1)]):
+        return fail("foreign_write", "an input or captured operand was modified by differentiation", bucket("foreign_write"), sample=sample)
+    if digest([y]) != y_digest or digest([r1]) != r1_digest or digest([y_jvp, t1]) != t1_digest:
+        return fail("foreign_write", "a value returned earlier (primal result, cotangent or tangent) changed during a later call", bucket("result_changed"), sample=sample)
+    for nm, val in (("make_vjp", y), ("make_jvp", y_jvp), ("plain call afterwards", plain)):
+        if onp.shape(val) != ref.shape or not onp.array_equal(onp.asarray(val), ref):
+            return fail("primal_mismatch", f"the value returned by {nm} differs from NumPy's at a special point", bucket("primal"), sample=sample)
+    if not (tree_equal(r1, r1_again) and tree_equal(r1, fresh) and tree_equal(t1, t2)):
+        return fail("history_dependence", "the same derivative call repeated (or on a fresh operator) gives a different answer", bucket("not_repeatable"), sample=sample)
+    return ok(nontrivial=True, key=json.dumps(desc, default=repr), labels=["special=" + desc[0]], sample=sample)
+
+
+LARGE_N = [65536, 65537, 65538, 131072, 131074, 98304]
+
+
+def _large_programs():
+    def idx(n):
+        return onp.arange(0, n, 997)
+
+    return {
+        "rfft_power": lambda ns, x, w: ns.sum(ns.abs(ns.fft.rfft(x, norm="ortho")) ** 2 * w[: x.shape[0] // 2 + 1]),
+        "rfft_irfft": lambda ns, x, w: ns.sum(ns.fft.irfft(ns.fft.rfft(x)) * w),
+        "fft_real": lambda ns, x, w: ns.sum(ns.real(ns.fft.fft(x)) * w) * 1e-2,
+        "sum_sq": lambda ns, x, w: ns.sum(x * x * w),
+        "sum_half": lambda ns, x, w: ns.sum((x * w)[: x.shape[0] // 2 + 1] ** 2),
+        "mean_sin": lambda ns, x, w: ns.mean(ns.sin(x) * w),
+        "logsumexp": lambda ns, x, w: ns.log(ns.sum(ns.exp(x * w))),
+        "var_std": lambda ns, x, w: ns.var(x * w) + ns.std(x),
+        "dot": lambda ns, x, w: ns.dot(x, w) ** 2,
+        "cumsum": lambda ns, x, w: ns.sum(ns.cumsum(x * w)[idx(x.shape[0])]) * 1e-2,
+        "take": lambda ns, x, w: ns.sum(ns.sin(x[idx(x.shape[0])])) + ns.sum(x * w),
+        "reshape_sum": lambda ns, x, w: ns.sum(ns.sum(ns.reshape(x * w, (2, -1)), axis=0) ** 2),
+        "abs_power": lambda ns, x, w: ns.sum(ns.abs(x) ** 1.5 * w),
+    }
+
+
+_LP = {}
+
+
+def large_arrays_body(c):
+    """Arrays of 2**16 .. 2**17 entries (sizes at which an implementation may switch strategy: kept buffers, chunking): a drawn history of
+    differentiations of a few programs over such arrays; every gradient must pair correctly with a direction (central differences of raw
+    NumPy) and a repeated step must reproduce its first result bitwise, whatever was differentiated in between."""
+    import autograd
+
+    from ..templates.core import namespaces
+
+    NP, AG = namespaces()
+    if not _LP:
+        _LP.update(_large_programs())
+    names = sorted(_LP)
+    pool = []
+    for _ in range(c.int(2, 3)):
+        pool.append((names[c.int(0, len(names) - 1)], LARGE_N[c.int(0, len(LARGE_N) - 1)], c.int(0, 3)))
+    steps = [pool[c.int(0, len(pool) - 1)] for _ in range(c.int(3, 5))]
+    sample = {"steps": [list(s_) for s_ in steps]}
+    first = {}
+    data = {}
+    for k, (name, n, vs) in enumerate(steps):
+        if name in ("rfft_power", "rfft_irfft", "reshape_sum") and n % 2:
+            n += 1
+        if (n, vs) not in data:
+            rs = onp.random.RandomState(1000 * vs + n % 1000)
+            x = rs.uniform(0.3, 1.7, n) * onp.where(rs.uniform(size=n) < 0.5, -1.0, 1.0)
+            w = rs.uniform(0.5, 1.5, n)
+            v = rs.uniform(-1.0, 1.0, n)
+            for a_ in (x, w, v):
+                a_.flags.writeable = False
+            data[(n, vs)] = (x, w, v, digest([x, w, v]))
+        x, w, v, dg = data[(n, vs)]
+        f = _LP[name]
+        bucket = lambda kd: f"C10|large|{name}|{kd}"
+        try:
+            g = autograd.grad(lambda x_: f(AG, x_, w))(x)
+        except ValueError as e:
+            if "read-only" in str(e) or "not writeable" in str(e):
+                return fail("foreign_write", "a rule tried to write into memory it was given: " + describe_exc(e), bucket("foreign_write"), sample=sample)
+            return raised(e, "large", sample=sample)
+        except Exception as e:
+            if not from_autograd(e):
+                raise
+            return raised(e, "large", sample=sample)
+        if digest([x, w, v]) != dg:
+            return fail("foreign_write", f"step {k} ({name}, n={n}) modified an input", bucket("foreign_write"), sample=sample)
+        if onp.shape(g) != x.shape:
+            return fail("wrong_shape", f"step {k} ({name}, n={n}): gradient shape {onp.shape(g)}", bucket("wrong_shape"), sample=sample)
+        key = (name, n, vs)
+        if key in first:
+            if not onp.array_equal(g, first[key]):
+                return fail("history_dependence", f"step {k} ({name}, n={n}) differs from the same differentiation done earlier in this history "
+                            f"(max abs diff {float(onp.max(onp.abs(g - first[key]))):.3e})", bucket("not_repeatable"), sample=sample)
+            continue
+        first[key] = onp.array(g)
+        h = 1e-5
+        num = (f(NP, x + h * v, w) - f(NP, x - h * v, w)) / (2 * h)
+        ana = float(onp.dot(g, v))
+        scale = max(1.0, abs(num), float(onp.sqrt(onp.dot(g, g)) * onp.sqrt(n) * 1e-3))
+        if not abs(ana - num) <= 1e-5 * scale:
+            return fail("wrong_value", f"step {k} ({name}, n={n}): <grad, v> = {ana!r} but central differences give {num!r}", bucket("wrong_value"), sample=sample)
+    c.features.update(programs=sorted({s_[0] for s_ in steps}))
+    return ok(nontrivial=len(set(steps)) >= 2 and len(steps) > len(set(steps)), key=json.dumps(sample), labels=["large"], sample=sample)
+
+
 from functools import partial  # noqa: E402
 
 def _tests():
     from ..templates import TEMPLATES
 
     out = [Test("histories", partial(body, 15), quick=2000, thorough=0, shard_size=130),
-           Test("histories_long", partial(body, 30), quick=0, thorough=6000, shard_size=100)]
+           Test("histories_long", partial(body, 30), quick=0, thorough=6000, shard_size=100),
+           Test("special_points", special_points_body, quick=1500, thorough=12000, shard_size=150),
+           Test("large_arrays", large_arrays_body, quick=160, thorough=1600, shard_size=10)]
     for name, t in sorted(TEMPLATES.items()):
         out.append(Test("reuse:" + name, partial(template_body, t), quick=20 * t.weight, thorough=200 * t.weight, shard_size=100))
     return out
